@@ -53,6 +53,17 @@ class AttrDecl:
         return "<%s %s.%s @%s>" % (self.kind, self.cls.name, self.prop, self.attr)
 
 
+ALL_PARTS = ("insert", "adder", "get_or_add", "remover", "change_to", "install", "attr")
+
+
+def mechanism_gate(ctx, model, parts=ALL_PARTS):
+    """A check that relies on `parts` of the generated-method mechanism stops (ANALYSIS-ERROR) when one of them is written in a way
+    the model does not recognise; checks that do not rely on it are unaffected."""
+    for part, what in model.mechanism_errors:
+        if part in parts:
+            ctx.error("xmlchemy:%s" % part, what)
+
+
 def choice_prop(tag):
     return tag.split(":", 1)[1] if ":" in tag else tag
 
@@ -64,8 +75,13 @@ class Model:
         self._own = {}
         self._collect_registrations()
         self.semantics = None
-        self.mechanism_problems = []  # (severity, where, what)
+        self.mechanism_problems = []  # (severity, where, what): established deviations of the mechanism
+        self.mechanism_errors = []    # (part, what): a part of the mechanism whose shape is not recognised; reported (exit 2) only
+        #                               by the checks that rely on that part - see mechanism_gate()
+        self.add_to_class_guarded = True
         self._check_mechanism()
+        if self.semantics is None:
+            self.semantics = "doc-order"   # placeholder: the "insert" part is in mechanism_errors, checks using it stop there
 
     # -- registrations ---------------------------------------------------------------------------
     def _collect_registrations(self):
@@ -218,6 +234,21 @@ class Model:
         return None
 
     # -- mechanism shape -------------------------------------------------------------------------
+    def _part(self, part):
+        """Context manager: an AnalysisError inside is recorded against `part` of the mechanism and the other parts are still read."""
+        model = self
+
+        class _Cm:
+            def __enter__(self_):
+                return self_
+
+            def __exit__(self_, et, ev, tb):
+                if et is not None and issubclass(et, AnalysisError):
+                    model.mechanism_errors.append((part, str(ev)))
+                    return True
+                return False
+        return _Cm()
+
     def _check_mechanism(self):
         prog = self.prog
         m = prog.modules.get("pptx.oxml.xmlchemy")
@@ -228,85 +259,87 @@ class Model:
             raise AnalysisError("anchor vanished: BaseOxmlElement")
         P = self.mechanism_problems
 
-        # (1) first_child_found_in: classify search order
-        f = base.methods.get("first_child_found_in")
-        ieb = base.methods.get("insert_element_before")
-        if ieb is None:
-            raise AnalysisError("anchor vanished: BaseOxmlElement.insert_element_before")
-        search = None
-        if f is not None:
-            search = self._classify_search(f.node)
-        # (2) insert_element_before
-        muts = _method_calls(ieb.node)
-        args = ieb.params
-        elm = args[1] if len(args) > 1 else None
-        varargs = ieb.node.args.vararg.arg if ieb.node.args.vararg else None
-        ok = False
-        succ_var = None
-        inline_search = None
-        for st in ieb.node.body:
-            if isinstance(st, ast.Assign) and isinstance(st.value, ast.Call) and len(st.targets) == 1 and isinstance(st.targets[0], ast.Name):
-                d = dotted(st.value.func) or ""
-                if d.startswith("self.") and d.count(".") == 1 and len(st.value.args) == 1:
-                    a0 = st.value.args[0]
-                    passes = (isinstance(a0, ast.Starred) and dotted(a0.value) == varargs) or dotted(a0) == varargs
-                    helper = base.methods.get(d.split(".")[1])
-                    if passes and helper is not None:
-                        hs = self._classify_search(helper.node)
-                        if hs is not None:
-                            search = hs
-                            succ_var = st.targets[0].id
-        if succ_var is None:
-            inline_search = self._classify_search(ieb.node, allow_inline=True)
-            if inline_search:
-                search = inline_search[0]
-                succ_var = inline_search[1]
-        if succ_var is None or search is None:
-            deep = [dotted(n.func) for n in ast.walk(ieb.node) if isinstance(n, ast.Call) and dotted(n.func) in (
-                "self.iter", "self.iterdescendants", "self.xpath", "self.iterfind", "self.findall", "self.getiterator")]
-            if deep:
-                self.semantics = "doc-order"
+        with self._part('insert'):
+            # (1) first_child_found_in: classify search order
+            f = base.methods.get("first_child_found_in")
+            ieb = base.methods.get("insert_element_before")
+            if ieb is None:
+                raise AnalysisError("anchor vanished: BaseOxmlElement.insert_element_before")
+            search = None
+            if f is not None:
+                search = self._classify_search(f.node)
+            # (2) insert_element_before
+            muts = _method_calls(ieb.node)
+            args = ieb.params
+            elm = args[1] if len(args) > 1 else None
+            varargs = ieb.node.args.vararg.arg if ieb.node.args.vararg else None
+            ok = False
+            succ_var = None
+            inline_search = None
+            for st in ieb.node.body:
+                if isinstance(st, ast.Assign) and isinstance(st.value, ast.Call) and len(st.targets) == 1 and isinstance(st.targets[0], ast.Name):
+                    d = dotted(st.value.func) or ""
+                    if d.startswith("self.") and d.count(".") == 1 and len(st.value.args) == 1:
+                        a0 = st.value.args[0]
+                        passes = (isinstance(a0, ast.Starred) and dotted(a0.value) == varargs) or dotted(a0) == varargs
+                        helper = base.methods.get(d.split(".")[1])
+                        if passes and helper is not None:
+                            hs = self._classify_search(helper.node)
+                            if hs is not None:
+                                search = hs
+                                succ_var = st.targets[0].id
+            if succ_var is None:
+                inline_search = self._classify_search(ieb.node, allow_inline=True)
+                if inline_search:
+                    search = inline_search[0]
+                    succ_var = inline_search[1]
+            if succ_var is None or search is None:
+                deep = [dotted(n.func) for n in ast.walk(ieb.node) if isinstance(n, ast.Call) and dotted(n.func) in (
+                    "self.iter", "self.iterdescendants", "self.xpath", "self.iterfind", "self.findall", "self.getiterator")]
+                if deep:
+                    self.semantics = "doc-order"
+                    P.append(("violation", "%s:%d" % (m.relpath, ieb.line),
+                              "insert_element_before looks for the successor with %s, which is not restricted to direct children: "
+                              "a descendant of an earlier sibling can be taken as the successor" % deep[0]))
+                    return
+                raise AnalysisError("xmlchemy.insert_element_before: successor search not recognised")
+            self.semantics = search  # "tag-order" | "doc-order"
+            # find `if <succ> is not None: succ.addprevious(elm) else: self.append(elm)`
+            shape = _find_insert_shape(ieb.node, succ_var, elm)
+            if shape is None:
+                # distinguish recognisably wrong forms
+                names = [n for n, _ in muts]
+                if "addnext" in names or ("append" in names and "addprevious" not in names) or "insert" in names:
+                    P.append(("violation", "%s:%d" % (m.relpath, ieb.line),
+                              "insert_element_before does not insert the child immediately before the first "
+                              "successor found (calls: %s)" % ", ".join(sorted(set(names)))))
+                else:
+                    raise AnalysisError("xmlchemy.insert_element_before: insertion shape not recognised")
+            bad = [n for n, _ in muts if n in ("addnext", "remove", "clear", "extend", "replace")]
+            if bad and shape is not None:
                 P.append(("violation", "%s:%d" % (m.relpath, ieb.line),
-                          "insert_element_before looks for the successor with %s, which is not restricted to direct children: "
-                          "a descendant of an earlier sibling can be taken as the successor" % deep[0]))
-                return
-            raise AnalysisError("xmlchemy.insert_element_before: successor search not recognised")
-        self.semantics = search  # "tag-order" | "doc-order"
-        # find `if <succ> is not None: succ.addprevious(elm) else: self.append(elm)`
-        shape = _find_insert_shape(ieb.node, succ_var, elm)
-        if shape is None:
-            # distinguish recognisably wrong forms
-            names = [n for n, _ in muts]
-            if "addnext" in names or ("append" in names and "addprevious" not in names) or "insert" in names:
-                P.append(("violation", "%s:%d" % (m.relpath, ieb.line),
-                          "insert_element_before does not insert the child immediately before the first "
-                          "successor found (calls: %s)" % ", ".join(sorted(set(names)))))
-            else:
-                raise AnalysisError("xmlchemy.insert_element_before: insertion shape not recognised")
-        bad = [n for n, _ in muts if n in ("addnext", "remove", "clear", "extend", "replace")]
-        if bad and shape is not None:
-            P.append(("violation", "%s:%d" % (m.relpath, ieb.line),
-                      "insert_element_before performs extra tree mutation: %s" % bad))
+                          "insert_element_before performs extra tree mutation: %s" % bad))
 
-        # (3) remove_all removes every match
-        ra = base.methods.get("remove_all")
-        if ra is None:
-            raise AnalysisError("anchor vanished: BaseOxmlElement.remove_all")
-        rcalls = [n for n, _ in _method_calls(ra.node)]
-        if "findall" not in rcalls and "iterchildren" not in rcalls and "xpath" not in rcalls:
-            if "find" in rcalls:
-                P.append(("violation", "%s:%d" % (m.relpath, ra.line),
-                          "remove_all removes only the first matching child (find, not findall)"))
-            else:
-                raise AnalysisError("xmlchemy.remove_all: shape not recognised")
-        if "remove" not in rcalls:
-            P.append(("violation", "%s:%d" % (m.relpath, ra.line), "remove_all never calls remove"))
-        loops = [n for n in ast.walk(ra.node) if isinstance(n, ast.For)]
-        if len(loops) < 2 and "findall" in rcalls:
-            # for tagname in tagnames: for child in findall: remove  (two loops) or equivalent
-            if not any(isinstance(n, (ast.ListComp, ast.GeneratorExp)) for n in ast.walk(ra.node)):
-                P.append(("violation", "%s:%d" % (m.relpath, ra.line),
-                          "remove_all does not iterate over every match of every tag"))
+        with self._part('remover'):
+            # (3) remove_all removes every match
+            ra = base.methods.get("remove_all")
+            if ra is None:
+                raise AnalysisError("anchor vanished: BaseOxmlElement.remove_all")
+            rcalls = [n for n, _ in _method_calls(ra.node)]
+            if "findall" not in rcalls and "iterchildren" not in rcalls and "xpath" not in rcalls:
+                if "find" in rcalls:
+                    P.append(("violation", "%s:%d" % (m.relpath, ra.line),
+                              "remove_all removes only the first matching child (find, not findall)"))
+                else:
+                    raise AnalysisError("xmlchemy.remove_all: shape not recognised")
+            if "remove" not in rcalls:
+                P.append(("violation", "%s:%d" % (m.relpath, ra.line), "remove_all never calls remove"))
+            loops = [n for n in ast.walk(ra.node) if isinstance(n, ast.For)]
+            if len(loops) < 2 and "findall" in rcalls:
+                # for tagname in tagnames: for child in findall: remove  (two loops) or equivalent
+                if not any(isinstance(n, (ast.ListComp, ast.GeneratorExp)) for n in ast.walk(ra.node)):
+                    P.append(("violation", "%s:%d" % (m.relpath, ra.line),
+                              "remove_all does not iterate over every match of every tag"))
 
         # (4) generated closures in the declaration classes
         def inner(clsname, meth, innername):
@@ -326,196 +359,203 @@ class Model:
                     return n, c.methods[meth]
             raise AnalysisError("anchor vanished: xmlchemy.%s.%s.%s" % (clsname, meth, innername))
 
-        # inserter passes the declaration's successors
-        node, fi = inner("_BaseChildElement", "_add_inserter", "_insert_child")
-        okc = False
-        for n in ast.walk(node):
-            if isinstance(n, ast.Call) and isinstance(n.func, ast.Attribute) and n.func.attr == "insert_element_before":
-                if len(n.args) == 2 and isinstance(n.args[1], ast.Starred) and dotted(n.args[1].value) == "self._successors" \
-                        and isinstance(n.args[0], ast.Name) and n.args[0].id == node.args.args[1].arg:
-                    okc = True
-        if not okc:
-            P.append(("violation", "%s:%d" % (m.relpath, node.lineno),
-                      "_insert_child does not call insert_element_before(child, *self._successors)"))
-        # adder: new -> setattr* -> insert ; returns child
-        node, fi = inner("_BaseChildElement", "_add_adder", "_add_child")
-        order = []
-        for n in ast.walk(_norm_closure(node)):
-            if isinstance(n, ast.Call):
-                d = dotted(n.func)
-                dn = _dyn_name(n)
-                if d == "setattr":
-                    order.append(("setattr", (n.lineno, n.col_offset)))
-                elif d == "insert_method" or dn == "_insert_method_name":
-                    order.append(("insert", (n.lineno, n.col_offset)))
-                elif d == "new_method" or dn == "_new_method_name":
-                    order.append(("new", (n.lineno, n.col_offset)))
-        order.sort(key=lambda x: x[1])
-        seq = [o[0] for o in order]
-        if seq != ["new", "setattr", "insert"]:
-            if "insert" not in seq:
-                P.append(("violation", "%s:%d" % (m.relpath, node.lineno), "_add_child never inserts the new child"))
-            elif seq.index("insert") < seq.index("setattr") if "setattr" in seq else False:
-                P.append(("violation", "%s:%d" % (m.relpath, node.lineno),
-                          "_add_child inserts the child before its attributes are set (a rejected value "
-                          "would leave a half-initialised child attached)"))
-            else:
-                raise AnalysisError("xmlchemy._add_child: shape not recognised %s" % seq)
-        # get_or_add: adds only when the getter returned None
-        node, fi = inner("ZeroOrOne", "_add_get_or_adder", "get_or_add_child")
-        d_, cps = _closure_paths(node)
-        child_src = None
-        for n_ in ast.walk(d_):
-            if isinstance(n_, ast.Assign) and isinstance(n_.value, ast.Call) and dotted(n_.value.func) == "getattr" \
-                    and dotted(n_.value.args[1]) == "self._prop_name":
-                child_src = n_.targets[0].id
-        bad_add = False
-        adds = 0
-        for fs, calls, pth in cps:
-            known_none = any(a[0] == "none" and a[1] == child_src and a[2] is True for a in fs)
-            if "_add_method_name" in calls:
-                adds += 1
-                if not known_none:
-                    bad_add = True
-            elif known_none:
-                bad_add = True  # absent child and nothing added
-        if child_src is None or adds == 0:
-            if not _add_guarded_by_none_test(node, "add_method"):
-                raise AnalysisError("xmlchemy.get_or_add_child: shape not recognised")
-        elif bad_add:
-            P.append(("violation", "%s:%d" % (m.relpath, node.lineno),
-                      "get_or_add_child adds a child without first testing that none is present"))
-        # remover
-        node, fi = inner("ZeroOrOne", "_add_remover", "_remove_child")
-        if not any(isinstance(n, ast.Call) and isinstance(n.func, ast.Attribute) and n.func.attr == "remove_all"
-                   and n.args and dotted(n.args[0]) == "self._nsptagname" for n in ast.walk(node)):
-            P.append(("violation", "%s:%d" % (m.relpath, node.lineno), "_remove_child does not remove_all(own tag)"))
-        # get_or_change_to: getter, early return, remove group, add
-        node, fi = inner("Choice", "_add_get_or_change_to_method", "get_or_change_to_child")
-        d_, cps = _closure_paths(node)
-        child_src = None
-        for n_ in ast.walk(d_):
-            if isinstance(n_, ast.Assign) and isinstance(n_.value, ast.Call) and dotted(n_.value.func) == "getattr" \
-                    and dotted(n_.value.args[1]) == "self._prop_name":
-                child_src = n_.targets[0].id
-        if child_src is None or not cps:
-            raise AnalysisError("xmlchemy.get_or_change_to_child: shape not recognised")
-        present_ok = absent_ok = False
-        wrong = None
-        for fs, calls, pth in cps:
-            if any(a[0] == "none" and a[1] == child_src and a[2] is False for a in fs):
-                if calls:
-                    wrong = "changes the document although the member is present (%s)" % calls
-                elif pth.end == "return" and dotted(pth.end_node.value) == child_src:
-                    present_ok = True
-            elif any(a[0] == "none" and a[1] == child_src and a[2] is True for a in fs) or not any(a[0] == "none" for a in fs):
-                if calls == ["_remove_group_method_name", "_add_method_name"]:
-                    absent_ok = True
-                else:
-                    wrong = "must remove the whole choice group and then add (found %s)" % calls
-        if wrong:
-            P.append(("violation", "%s:%d" % (m.relpath, node.lineno), "get_or_change_to_child " + wrong))
-        elif not present_ok:
-            P.append(("violation", "%s:%d" % (m.relpath, node.lineno),
-                      "get_or_change_to_child does not return the existing member unchanged"))
-        elif not absent_ok:
-            raise AnalysisError("xmlchemy.get_or_change_to_child: absent-member path not recognised")
-        # group remover covers every member
-        node, fi = inner("ZeroOrOneChoice", "_add_group_remover", "_remove_choice_group")
-        okc = False
-        for n in ast.walk(node):
-            if isinstance(n, ast.For) and dotted(n.iter) == "self._member_nsptagnames":
-                for c in ast.walk(n):
-                    if isinstance(c, ast.Call) and isinstance(c.func, ast.Attribute) and c.func.attr == "remove_all" \
-                            and c.args and dotted(c.args[0]) == (n.target.id if isinstance(n.target, ast.Name) else None):
+        with self._part('insert'):
+            # inserter passes the declaration's successors
+            node, fi = inner("_BaseChildElement", "_add_inserter", "_insert_child")
+            okc = False
+            for n in ast.walk(node):
+                if isinstance(n, ast.Call) and isinstance(n.func, ast.Attribute) and n.func.attr == "insert_element_before":
+                    if len(n.args) == 2 and isinstance(n.args[1], ast.Starred) and dotted(n.args[1].value) == "self._successors" \
+                            and isinstance(n.args[0], ast.Name) and n.args[0].id == node.args.args[1].arg:
                         okc = True
-            # remove_all accepts several tag names: one call with the whole member list
-            if isinstance(n, ast.Call) and isinstance(n.func, ast.Attribute) and n.func.attr == "remove_all" and len(n.args) == 1 \
-                    and isinstance(n.args[0], ast.Starred) and dotted(n.args[0].value) == "self._member_nsptagnames":
-                okc = True
-        if not okc:
-            P.append(("violation", "%s:%d" % (m.relpath, node.lineno),
-                      "_remove_choice_group does not remove_all for every member tag"))
-        zc = m.classes["ZeroOrOneChoice"]
-        mn = zc.methods.get("_member_nsptagnames")
-        if mn is None or not any(isinstance(n, (ast.ListComp, ast.GeneratorExp)) and
-                                 dotted(n.generators[0].iter) == "self._choices" and not n.generators[0].ifs
-                                 for n in ast.walk(mn.node)):
-            raise AnalysisError("xmlchemy.ZeroOrOneChoice._member_nsptagnames: shape not recognised")
-        # _add_to_class guard
-        atc = m.classes["_BaseChildElement"].methods.get("_add_to_class")
-        if atc is None:
-            raise AnalysisError("anchor vanished: _BaseChildElement._add_to_class")
-        self.add_to_class_guarded = any(
-            isinstance(n, ast.Call) and dotted(n.func) == "hasattr" for n in ast.walk(atc.node))
-        # metaclass dispatch
-        meta = m.classes.get("MetaOxmlElement")
-        if meta is None:
-            raise AnalysisError("anchor vanished: MetaOxmlElement")
-        disp = set()
-        for n in ast.walk(meta.node):
-            if isinstance(n, ast.Tuple):
-                names = [dotted(e) for e in n.elts]
-                if all(names) and set(names) & set(CHILD_KINDS):
-                    disp = set(names)
-        need = set(CHILD_KINDS) | set(ATTR_KINDS)
-        if disp != need:
-            P.append(("violation", "%s:%d" % (m.relpath, meta.line),
-                      "metaclass does not dispatch declaration kinds %s" % sorted(need - disp)))
-        # populate_class_members per kind installs the expected generators
-        expect = {
-            "ZeroOrOne": {"_add_getter", "_add_creator", "_add_inserter", "_add_adder", "_add_get_or_adder", "_add_remover"},
-            "ZeroOrMore": {"_add_list_getter", "_add_creator", "_add_inserter", "_add_adder"},
-            "OneOrMore": {"_add_list_getter", "_add_creator", "_add_inserter", "_add_adder", "_add_public_adder"},
-            "OneAndOnlyOne": {"_add_getter"},
-            "Choice": {"_add_getter", "_add_creator", "_add_inserter", "_add_adder", "_add_get_or_change_to_method"},
-            "ZeroOrOneChoice": {"_add_choice_getter", "_add_group_remover"},
-        }
-        for k, want in expect.items():
-            c = m.classes.get(k)
-            pm = c.methods.get("populate_class_members") if c else None
-            if pm is None:
-                raise AnalysisError("anchor vanished: xmlchemy.%s.populate_class_members" % k)
-            have = {n.func.attr for n in ast.walk(pm.node)
-                    if isinstance(n, ast.Call) and isinstance(n.func, ast.Attribute)
-                    and dotted(n.func.value) == "self" and n.func.attr.startswith("_add_")}
-            if not want <= have:
+            if not okc:
+                P.append(("violation", "%s:%d" % (m.relpath, node.lineno),
+                          "_insert_child does not call insert_element_before(child, *self._successors)"))
+        with self._part('adder'):
+            # adder: new -> setattr* -> insert ; returns child
+            node, fi = inner("_BaseChildElement", "_add_adder", "_add_child")
+            order = []
+            for n in ast.walk(_norm_closure(node)):
+                if isinstance(n, ast.Call):
+                    d = dotted(n.func)
+                    dn = _dyn_name(n)
+                    if d == "setattr":
+                        order.append(("setattr", (n.lineno, n.col_offset)))
+                    elif d == "insert_method" or dn == "_insert_method_name":
+                        order.append(("insert", (n.lineno, n.col_offset)))
+                    elif d == "new_method" or dn == "_new_method_name":
+                        order.append(("new", (n.lineno, n.col_offset)))
+            order.sort(key=lambda x: x[1])
+            seq = [o[0] for o in order]
+            if seq != ["new", "setattr", "insert"]:
+                if "insert" not in seq:
+                    P.append(("violation", "%s:%d" % (m.relpath, node.lineno), "_add_child never inserts the new child"))
+                elif seq.index("insert") < seq.index("setattr") if "setattr" in seq else False:
+                    P.append(("violation", "%s:%d" % (m.relpath, node.lineno),
+                              "_add_child inserts the child before its attributes are set (a rejected value "
+                              "would leave a half-initialised child attached)"))
+                else:
+                    raise AnalysisError("xmlchemy._add_child: shape not recognised %s" % seq)
+        with self._part('get_or_add'):
+            # get_or_add: adds only when the getter returned None
+            node, fi = inner("ZeroOrOne", "_add_get_or_adder", "get_or_add_child")
+            d_, cps = _closure_paths(node)
+            child_src = None
+            for n_ in ast.walk(d_):
+                if isinstance(n_, ast.Assign) and isinstance(n_.value, ast.Call) and dotted(n_.value.func) == "getattr" \
+                        and dotted(n_.value.args[1]) == "self._prop_name":
+                    child_src = n_.targets[0].id
+            bad_add = False
+            adds = 0
+            for fs, calls, pth in cps:
+                known_none = any(a[0] == "none" and a[1] == child_src and a[2] is True for a in fs)
+                if "_add_method_name" in calls:
+                    adds += 1
+                    if not known_none:
+                        bad_add = True
+                elif known_none:
+                    bad_add = True  # absent child and nothing added
+            if child_src is None or adds == 0:
+                if not _add_guarded_by_none_test(node, "add_method"):
+                    raise AnalysisError("xmlchemy.get_or_add_child: shape not recognised")
+            elif bad_add:
+                P.append(("violation", "%s:%d" % (m.relpath, node.lineno),
+                          "get_or_add_child adds a child without first testing that none is present"))
+        with self._part('remover'):
+            # remover
+            node, fi = inner("ZeroOrOne", "_add_remover", "_remove_child")
+            if not any(isinstance(n, ast.Call) and isinstance(n.func, ast.Attribute) and n.func.attr == "remove_all"
+                       and n.args and dotted(n.args[0]) == "self._nsptagname" for n in ast.walk(node)):
+                P.append(("violation", "%s:%d" % (m.relpath, node.lineno), "_remove_child does not remove_all(own tag)"))
+        with self._part('change_to'):
+            # get_or_change_to: getter, early return, remove group, add
+            node, fi = inner("Choice", "_add_get_or_change_to_method", "get_or_change_to_child")
+            d_, cps = _closure_paths(node)
+            child_src = None
+            for n_ in ast.walk(d_):
+                if isinstance(n_, ast.Assign) and isinstance(n_.value, ast.Call) and dotted(n_.value.func) == "getattr" \
+                        and dotted(n_.value.args[1]) == "self._prop_name":
+                    child_src = n_.targets[0].id
+            if child_src is None or not cps:
+                raise AnalysisError("xmlchemy.get_or_change_to_child: shape not recognised")
+            present_ok = absent_ok = False
+            wrong = None
+            for fs, calls, pth in cps:
+                if any(a[0] == "none" and a[1] == child_src and a[2] is False for a in fs):
+                    if calls:
+                        wrong = "changes the document although the member is present (%s)" % calls
+                    elif pth.end == "return" and dotted(pth.end_node.value) == child_src:
+                        present_ok = True
+                elif any(a[0] == "none" and a[1] == child_src and a[2] is True for a in fs) or not any(a[0] == "none" for a in fs):
+                    if calls == ["_remove_group_method_name", "_add_method_name"]:
+                        absent_ok = True
+                    else:
+                        wrong = "must remove the whole choice group and then add (found %s)" % calls
+            if wrong:
+                P.append(("violation", "%s:%d" % (m.relpath, node.lineno), "get_or_change_to_child " + wrong))
+            elif not present_ok:
+                P.append(("violation", "%s:%d" % (m.relpath, node.lineno),
+                          "get_or_change_to_child does not return the existing member unchanged"))
+            elif not absent_ok:
+                raise AnalysisError("xmlchemy.get_or_change_to_child: absent-member path not recognised")
+            # group remover covers every member
+            node, fi = inner("ZeroOrOneChoice", "_add_group_remover", "_remove_choice_group")
+            okc = False
+            for n in ast.walk(node):
+                if isinstance(n, ast.For) and dotted(n.iter) == "self._member_nsptagnames":
+                    for c in ast.walk(n):
+                        if isinstance(c, ast.Call) and isinstance(c.func, ast.Attribute) and c.func.attr == "remove_all" \
+                                and c.args and dotted(c.args[0]) == (n.target.id if isinstance(n.target, ast.Name) else None):
+                            okc = True
+                # remove_all accepts several tag names: one call with the whole member list
+                if isinstance(n, ast.Call) and isinstance(n.func, ast.Attribute) and n.func.attr == "remove_all" and len(n.args) == 1 \
+                        and isinstance(n.args[0], ast.Starred) and dotted(n.args[0].value) == "self._member_nsptagnames":
+                    okc = True
+            if not okc:
+                P.append(("violation", "%s:%d" % (m.relpath, node.lineno),
+                          "_remove_choice_group does not remove_all for every member tag"))
+            zc = m.classes["ZeroOrOneChoice"]
+            mn = zc.methods.get("_member_nsptagnames")
+            if mn is None or not any(isinstance(n, (ast.ListComp, ast.GeneratorExp)) and
+                                     dotted(n.generators[0].iter) == "self._choices" and not n.generators[0].ifs
+                                     for n in ast.walk(mn.node)):
+                raise AnalysisError("xmlchemy.ZeroOrOneChoice._member_nsptagnames: shape not recognised")
+        with self._part('install'):
+            # _add_to_class guard
+            atc = m.classes["_BaseChildElement"].methods.get("_add_to_class")
+            if atc is None:
+                raise AnalysisError("anchor vanished: _BaseChildElement._add_to_class")
+            self.add_to_class_guarded = any(
+                isinstance(n, ast.Call) and dotted(n.func) == "hasattr" for n in ast.walk(atc.node))
+            # metaclass dispatch
+            meta = m.classes.get("MetaOxmlElement")
+            if meta is None:
+                raise AnalysisError("anchor vanished: MetaOxmlElement")
+            disp = set()
+            for n in ast.walk(meta.node):
+                if isinstance(n, ast.Tuple):
+                    names = [dotted(e) for e in n.elts]
+                    if all(names) and set(names) & set(CHILD_KINDS):
+                        disp = set(names)
+            need = set(CHILD_KINDS) | set(ATTR_KINDS)
+            if disp != need:
+                P.append(("violation", "%s:%d" % (m.relpath, meta.line),
+                          "metaclass does not dispatch declaration kinds %s" % sorted(need - disp)))
+            # populate_class_members per kind installs the expected generators
+            expect = {
+                "ZeroOrOne": {"_add_getter", "_add_creator", "_add_inserter", "_add_adder", "_add_get_or_adder", "_add_remover"},
+                "ZeroOrMore": {"_add_list_getter", "_add_creator", "_add_inserter", "_add_adder"},
+                "OneOrMore": {"_add_list_getter", "_add_creator", "_add_inserter", "_add_adder", "_add_public_adder"},
+                "OneAndOnlyOne": {"_add_getter"},
+                "Choice": {"_add_getter", "_add_creator", "_add_inserter", "_add_adder", "_add_get_or_change_to_method"},
+                "ZeroOrOneChoice": {"_add_choice_getter", "_add_group_remover"},
+            }
+            for k, want in expect.items():
+                c = m.classes.get(k)
+                pm = c.methods.get("populate_class_members") if c else None
+                if pm is None:
+                    raise AnalysisError("anchor vanished: xmlchemy.%s.populate_class_members" % k)
+                have = {n.func.attr for n in ast.walk(pm.node)
+                        if isinstance(n, ast.Call) and isinstance(n.func, ast.Attribute)
+                        and dotted(n.func.value) == "self" and n.func.attr.startswith("_add_")}
+                if not want <= have:
+                    P.append(("violation", "%s:%d" % (m.relpath, pm.line),
+                              "%s.populate_class_members no longer installs %s" % (k, sorted(want - have))))
+            # Choice gets the *group's* successors
+            pm = m.classes["ZeroOrOneChoice"].methods["populate_class_members"]
+            okc = any(isinstance(n, ast.Call) and isinstance(n.func, ast.Attribute) and n.func.attr == "populate_class_members"
+                      and len(n.args) == 3 and dotted(n.args[2]) == "self._successors" for n in ast.walk(pm.node))
+            if not okc:
                 P.append(("violation", "%s:%d" % (m.relpath, pm.line),
-                          "%s.populate_class_members no longer installs %s" % (k, sorted(want - have))))
-        # Choice gets the *group's* successors
-        pm = m.classes["ZeroOrOneChoice"].methods["populate_class_members"]
-        okc = any(isinstance(n, ast.Call) and isinstance(n.func, ast.Attribute) and n.func.attr == "populate_class_members"
-                  and len(n.args) == 3 and dotted(n.args[2]) == "self._successors" for n in ast.walk(pm.node))
-        if not okc:
-            P.append(("violation", "%s:%d" % (m.relpath, pm.line),
-                      "choice members are not given the group's successors"))
-        # attribute setters: to_xml before obj.set; Optional deletes on default
-        for k in ATTR_KINDS:
-            c = m.classes.get(k)
-            s = c.methods.get("_setter") if c else None
-            if s is None:
-                raise AnalysisError("anchor vanished: xmlchemy.%s._setter" % k)
-            from .inline import expand
+                          "choice members are not given the group's successors"))
+        with self._part('attr'):
+            # attribute setters: to_xml before obj.set; Optional deletes on default
+            for k in ATTR_KINDS:
+                c = m.classes.get(k)
+                s = prog.lookup(c, "_setter") if c else None   # possibly inherited from BaseAttribute, with hooks overridden per kind
+                if s is None:
+                    raise AnalysisError("anchor vanished: xmlchemy.%s._setter" % k)
+                from .inline import expand, with_self_class
 
-            sx = expand(prog, s)  # helper methods of the descriptor inlined into the closure
-            order_ = []
-            for n in ast.walk(sx):
-                if isinstance(n, ast.Call) and isinstance(n.func, ast.Attribute) and n.func.attr in ("to_xml", "set"):
-                    order_.append(((getattr(n, "lineno", 0), getattr(n, "col_offset", 0)), n.func.attr, n))
-            # the value handed to obj.set must be (an alias of) a to_xml result
-            toxml = [o for o in order_ if o[1] == "to_xml"]
-            sets = [o for o in order_ if o[1] == "set"]
-            conv_names = set()
-            for n in ast.walk(sx):
-                if isinstance(n, ast.Assign) and isinstance(n.value, ast.Call) and isinstance(n.value.func, ast.Attribute) \
-                        and n.value.func.attr == "to_xml" and isinstance(n.targets[0], ast.Name):
-                    conv_names.add(n.targets[0].id)
-            via = all(len(o[2].args) == 2 and ((isinstance(o[2].args[1], ast.Name) and o[2].args[1].id in conv_names) or (
-                isinstance(o[2].args[1], ast.Call) and isinstance(o[2].args[1].func, ast.Attribute) and o[2].args[1].func.attr == "to_xml"))
-                for o in sets)
-            if not toxml or not sets or not via:
-                P.append(("violation", "%s:%d" % (m.relpath, s.line),
-                          "%s setter writes the attribute without converting through to_xml first" % k))
+                sx = expand(prog, with_self_class(s, c))  # helper / hook methods of the descriptor inlined into the closure
+                order_ = []
+                for n in ast.walk(sx):
+                    if isinstance(n, ast.Call) and isinstance(n.func, ast.Attribute) and n.func.attr in ("to_xml", "set"):
+                        order_.append(((getattr(n, "lineno", 0), getattr(n, "col_offset", 0)), n.func.attr, n))
+                # the value handed to obj.set must be (an alias of) a to_xml result
+                toxml = [o for o in order_ if o[1] == "to_xml"]
+                sets = [o for o in order_ if o[1] == "set"]
+                conv_names = set()
+                for n in ast.walk(sx):
+                    if isinstance(n, ast.Assign) and isinstance(n.value, ast.Call) and isinstance(n.value.func, ast.Attribute) \
+                            and n.value.func.attr == "to_xml" and isinstance(n.targets[0], ast.Name):
+                        conv_names.add(n.targets[0].id)
+                via = all(len(o[2].args) == 2 and ((isinstance(o[2].args[1], ast.Name) and o[2].args[1].id in conv_names) or (
+                    isinstance(o[2].args[1], ast.Call) and isinstance(o[2].args[1].func, ast.Attribute) and o[2].args[1].func.attr == "to_xml"))
+                    for o in sets)
+                if not toxml or not sets or not via:
+                    P.append(("violation", "%s:%d" % (m.relpath, s.line),
+                              "%s setter writes the attribute without converting through to_xml first" % k))
 
     def _classify_search(self, fnode, allow_inline=False):
         """tag-order: `for t in tagnames: c = self.find(qn(t)); if c is not None: return c`
